@@ -5,6 +5,7 @@
 # pooling, check order, generated-machine structure). Every check must stay silent on every one of them.
 # usage: selftest/benign.sh [id-glob] [check ...]
 set -u
+mkdir -p /root/scratch
 export GOFLAGS=-mod=mod GOPROXY=off GOSUMDB=off GOTOOLCHAIN=local
 G="${1:-*}"; shift || true
 CHECKS="${*:-C03 C07 C08 C09 C10 C12 C14 C15 C16 C18 C19 C20}"
